@@ -1598,13 +1598,15 @@ impl<'a> Visitor<'a, '_, Error> for JSONValidator<'a> {
         }
       },
       ControlOperator::AND => {
-        self.state.ctrl = Some(ctrl);
+        // both operands are ordinary types: no control is in force while they
+        // are matched (RFC 8610 3.8.5)
+        self.state.ctrl = None;
         self.visit_type2(target)?;
         self.visit_type2(controller)?;
         self.state.ctrl = None;
       }
       ControlOperator::WITHIN => {
-        self.state.ctrl = Some(ctrl);
+        self.state.ctrl = None;
         let error_count = self.errors.len();
         self.visit_type2(target)?;
         let no_errors = self.errors.len() == error_count;
